@@ -5,7 +5,7 @@ Import ListNotations.
 Open Scope N_scope.
 
 Section P.
-Variables (fuel : nat) (E : env) (ms : list mangler).
+Variables (fuel : nat) (E : env) (ms : list mangler) (verify : list val -> bool).
 
 (* Value: translate, inner, reverse *)
 Lemma ts_value_transparent t inner ttr x v' :
@@ -17,8 +17,8 @@ Proof. intros H1 H2. unfold ts_value. rewrite H1. simpl. rewrite H2. reflexivity
    native source that returns the unmangled value *)
 Lemma ts_config_transparent fs defaults t inner ttr x v' :
   translate fuel ms t = Ok (ttr, x) -> inner ttr = Ok v' ->
-  dials_config fs defaults (ts_value fuel E ms t inner) =
-  dials_config fs defaults (reverse fuel E ms x v').
+  dials_config fs defaults verify (ts_value fuel E ms t inner) =
+  dials_config fs defaults verify (reverse fuel E ms x v').
 Proof. intros H1 H2. now rewrite (ts_value_transparent t inner ttr x v' H1 H2). Qed.
 
 (* every report of the wrapped watcher is the report of a native source for
@@ -32,19 +32,19 @@ Qed.
 
 (* hence the monitor goes through the same states, step for step *)
 Lemma updates_transparent fs defaults s x vs :
-  (rs <- wrapped_reports fuel E ms x vs ;; dials_run fs defaults s rs) =
-  (rs <- native_reports (map (reverse fuel E ms x) vs) ;; dials_run fs defaults s rs).
+  (rs <- wrapped_reports fuel E ms x vs ;; dials_run fs defaults verify s rs) =
+  (rs <- native_reports (map (reverse fuel E ms x) vs) ;; dials_run fs defaults verify s rs).
 Proof. now rewrite wrapped_is_native. Qed.
 
 (* an un-reversible value is never forwarded: it is an error event and the view stays *)
 Lemma unreversible_not_forwarded fs defaults s x v c :
   reverse fuel E ms x v = Err c ->
-  (r <- ts_report fuel E ms x v ;; dials_step fs defaults s r) = Ok (DS (d_view s) (d_errors s + 1)).
+  (r <- ts_report fuel E ms x v ;; dials_step fs defaults verify s r) = Ok (DS (d_view s) (d_errors s + 1)).
 Proof. intros H. unfold ts_report. rewrite H. reflexivity. Qed.
 
 Lemma reversible_is_forwarded fs defaults s x v u :
   reverse fuel E ms x v = Ok u ->
-  (r <- ts_report fuel E ms x v ;; dials_step fs defaults s r) = dials_step fs defaults s (RValue u).
+  (r <- ts_report fuel E ms x v ;; dials_step fs defaults verify s r) = dials_step fs defaults verify s (RValue u).
 Proof. intros H. unfold ts_report. rewrite H. reflexivity. Qed.
 
 (* errors are propagated, never swallowed *)
@@ -70,6 +70,62 @@ Lemma watch_translate_error t iw c :
 Proof. intros H. unfold ts_watch. now rewrite H. Qed.
 
 Lemma config_error_propagates fs defaults first c :
-  first = Err c -> dials_config fs defaults first = Err c.
+  first = Err c -> dials_config fs defaults verify first = Err c.
 Proof. intros ->. reflexivity. Qed.
+(* ---- the return value of the wrapped report methods ---- *)
+
+(* a reversible value: the wrapped (Blocking)ReportNewValue behaves, state and
+   return value, exactly like the native method of the same name on the
+   reverse-translated value *)
+Lemma report_ret_is_native x blocking fs defaults s v u :
+  reverse fuel E ms x v = Ok u ->
+  ts_report_ret fuel E ms x blocking fs defaults verify s v =
+  native_report_ret blocking fs defaults verify s u.
+Proof. intros H. unfold ts_report_ret. now rewrite H. Qed.
+
+(* the blocking report returns the verdict of its own re-stack: nil means the
+   view now is the stack of the defaults with exactly this (reverse-translated)
+   value and it passed Verify; an error means nothing was installed and one
+   error event was emitted *)
+Lemma blocking_verdict x fs defaults s v u s' ret :
+  reverse fuel E ms x v = Ok u ->
+  ts_report_ret fuel E ms x true fs defaults verify s v = Ok (s', ret) ->
+  (ret = false -> compose fs defaults [snd u] = Ok (d_view s') /\ verify (d_view s') = true /\
+                  d_errors s' = d_errors s) /\
+  (ret = true -> d_view s' = d_view s /\ d_errors s' = (d_errors s + 1)%N /\
+                 (forall view, compose fs defaults [snd u] = Ok view -> verify view = false)).
+Proof.
+  intros H R. rewrite (report_ret_is_native x true fs defaults s v u H) in R.
+  unfold native_report_ret, restack in R.
+  destruct (compose fs defaults [snd u]) as [view|c|p] eqn:C; simpl in R; try discriminate.
+  - destruct (verify view) eqn:V; simpl in R; inversion R; subst; simpl; split; intros X; try discriminate.
+    + auto.
+    + repeat split; auto. intros view' Hv. inversion Hv; subst. exact V.
+  - inversion R; subst. simpl. split; intros X; try discriminate. repeat split; auto. intros view Hv. discriminate.
+Qed.
+
+(* the non-blocking report of a reversible value returns nil whatever the re-stack does *)
+Lemma nonblocking_returns_nil x fs defaults s v u s' ret :
+  reverse fuel E ms x v = Ok u ->
+  ts_report_ret fuel E ms x false fs defaults verify s v = Ok (s', ret) -> ret = false.
+Proof.
+  intros H R. rewrite (report_ret_is_native x false fs defaults s v u H) in R.
+  unfold native_report_ret in R. destruct (restack fs defaults verify s (snd u)) as [a| |]; simpl in R; inversion R. reflexivity.
+Qed.
+
+(* an un-reversible value: both variants return an error, the view stays, one error event *)
+Lemma unreversible_returns_error x blocking fs defaults s v c :
+  reverse fuel E ms x v = Err c ->
+  ts_report_ret fuel E ms x blocking fs defaults verify s v = Ok (DS (d_view s) (d_errors s + 1), true).
+Proof. intros H. unfold ts_report_ret. now rewrite H. Qed.
+
+(* the state reached is the one dials_step reaches for the forwarded report *)
+Lemma report_ret_state x blocking fs defaults s v :
+  omap fst (ts_report_ret fuel E ms x blocking fs defaults verify s v) =
+  (r <- ts_report fuel E ms x v ;; dials_step fs defaults verify s r).
+Proof.
+  unfold ts_report_ret, ts_report. destruct (reverse fuel E ms x v) as [u|c|p]; simpl; try reflexivity.
+  unfold native_report_ret. destruct u as [ut uv]. simpl.
+  destruct (restack fs defaults verify s uv) as [a| |]; reflexivity.
+Qed.
 End P.
